@@ -71,7 +71,7 @@ def oracle(ctx, world):
                 exp = model[name][s:] if n is None else model[name][s:s + n]
                 got = [[int(v) for v in x] for x in (r["res"].tolist() if r["res"].ndim == 2 else [[H.to_int(v)] for v in r["res"]])] \
                     if hasattr(r["res"], "ndim") else None
-                got = parse_rows(world.expect[world.lines.index(r["line"])][3:]) if True else got
+                got = parse_rows(world.expect[r["idx"]][3:]) if True else got
                 if got != exp:
                     ctx.violation(what="get window", line=r["line"], observed=str(got)[:200], required=str(exp)[:200])
             elif r["err"][0] != "ValueError":
@@ -131,6 +131,14 @@ def run(ctx):
     for i in range(n_hist):
         kind = ["analog", "complex", "spectrum", "digital"][i % 4]
         H.gen_history(world, kind, ctx.rng.randint(1, 14 if ctx.quick else 40))
+    # mostly-valid histories (the generic stream spends most calls on rejected arguments): buffer adoption / growth chains
+    # such as 1-D base -> 2-D adoption -> growth on single-signal digital waveforms, borrowed buffers followed by appends
+    wv = {"appa": 4, "appw": 1, "load": 6, "setcount": 1, "setcap": 4, "settiming": 0, "write": 2, "get": 2, "pickle": 1, "bad": 0}
+    n_valid = 240 if ctx.quick else 6000
+    for i in range(n_valid):
+        kind = ["digital", "analog", "digital", "spectrum", "digital", "complex"][i % 6]
+        H.gen_history(world, kind, ctx.rng.randint(3, 10 if ctx.quick else 20), weights=wv, irregular_bias=0.05,
+                      force_cols=1 if (kind == "digital" and i % 4 != 3) else None, valid_bias=0.85)
     oracle(ctx, world)
     for r in world.records:
         ctx.case(r["line"], nontrivial=not r.get("malformed"))
@@ -138,7 +146,7 @@ def run(ctx):
         ctx.count("outcome", "ok" if r["err"] is None else r["err"][1])
         if r["kind"]:
             ctx.count("class", r["kind"])
-    ctx.extra["histories"] = n_hist
+    ctx.extra["histories"] = n_hist + n_valid
     ctx.extra["model_lines_compared"] = H.compare_with_model(ctx, world)
     for line, exp in list(zip(world.lines, world.expect))[5:400:60]:
         ctx.sample({"request": line[:200], "response": exp[:200]})
